@@ -225,6 +225,9 @@ func mutating(c crashkit.Call, d crashDir, tempfd *int) string {
 }
 
 func runCrash(cc crashCase) {
+	if wedged >= 3 {
+		return
+	}
 	fail := func(id, sig, msg string, k int) {
 		c := cc
 		c.K = k
